@@ -188,5 +188,4 @@ func init() {
 	Registry["C02"] = C02
 	Replayers["C01"] = replaySOps
 	Replayers["C02"] = replaySOps
-	Replayers["C09"] = replaySOps
 }
